@@ -491,6 +491,31 @@ theorem score_unstripe_dispatch (arm : Arm) (zero : α) (add : α → α → α)
     (fun sc => dispatchF32_eq_generic arm zero add hz pssm hK seq 0 _ sc hM hW (Nat.le_refl _)
       (symOK_of_inv N seq s inv hs hN))
 
+/-! ### `u8`: saturating and wrapping accumulation agree while the sum fits a byte -/
+
+theorem u8_fold_agree (terms : List Nat) (h : terms.sum ≤ 255) :
+    List.foldl u8Sat 0 terms = terms.sum ∧ List.foldl u8Wrap 0 terms = terms.sum := by
+  induction terms using list_snoc_induction with
+  | nil => exact ⟨rfl, rfl⟩
+  | snoc l x ih =>
+    rw [List.sum_append, List.sum_cons, List.sum_nil, Nat.add_zero] at h
+    have ih := ih (by omega)
+    rw [List.foldl_append, List.foldl_append, List.sum_append]
+    simp only [List.foldl_cons, List.foldl_nil, List.sum_cons, List.sum_nil, Nat.add_zero]
+    rw [ih.1, ih.2]
+    unfold u8Sat u8Wrap
+    exact ⟨by omega, by omega⟩
+
+/-- **C01, `u8` streams**: for a window whose byte scores sum to at most 255 the AVX2 kernel
+    (saturating `adds_epu8`) and the generic loop (wrapping `+=`) compute the same value, namely the
+    sum.  Above 255 they differ (saturation vs wrap-around / overflow panic): that is C08's matter. -/
+theorem windowScore_u8 (pssm : Mat Nat K) (N : Nat) (s : List Nat) (i : Nat)
+    (h : (windowTerms 0 pssm N s i).sum ≤ 255) :
+    windowScore 0 u8Sat pssm N s i = (windowTerms 0 pssm N s i).sum ∧
+    windowScore 0 u8Wrap pssm N s i = (windowTerms 0 pssm N s i).sum := by
+  rw [windowScore_eq_foldl, windowScore_eq_foldl]
+  exact u8_fold_agree _ h
+
 /-! ## §F  floating-point summation error of a left fold -/
 
 section rounding
